@@ -29,6 +29,9 @@ type c10Params struct {
 	// AfterContinue: over a link with latency the user presses Ctrl-C, leaves the menu open for 3 s, chooses
 	// "continue", and stops for good a little later (a list of moments): the second stop must be as prompt as any
 	AfterContinue bool `json:"after_continue,omitempty"`
+	// Twice: two transfers of one client session, both ended with stop-and-delete: a download (the client removes what it
+	// created), then an upload (the client created nothing; the server must remove its partial file)
+	Twice bool `json:"twice,omitempty"`
 }
 
 // completedFiles counts the MD5 acknowledgements the receiver sent: 16-byte digests in #SUCC: lines.
@@ -250,6 +253,51 @@ func c10Run(j vs.Job) *vs.JobResult {
 		}
 		return r
 	}
+	if p.Twice {
+		for _, s1 := range []int{60, 100, 140, 180, 220, 260, 300} {
+			for _, s2 := range []int{80, 140, 200} {
+				wp := p.W
+				wp.Stop = &wStop{Side: "client", Delete: true, Step: s1}
+				wp.Then = []wParams{{Dir: "up", Tree: "one:R:200000", Stop: &wStop{Side: "client", Delete: true, Step: s2}}}
+				_, res := runWorld(wp, vs.Config{Trace: j.Replay != nil}, nil, nil, nil)
+				r.Execs++
+				v := ""
+				switch {
+				case len(res.Sched.Crash) > 0:
+					v = "panic in a product goroutine: " + res.Sched.CrashString()
+				case res.Sched.Horizon:
+					v = "horizon reached: a stopped transfer does not end"
+				case len(res.Next) != 1:
+					v = "the second transfer of the session never ran"
+				default:
+					r2 := res.Next[0]
+					firstDeleted := res.StopHit && strings.Contains(res.ClientFail, "\r\n- ")
+					if firstDeleted && r2.StopHit && !strings.HasPrefix(r2.ClientExit, "Saved ") {
+						r.Nontrivial++
+						var left []string
+						for k := range r2.Dst {
+							left = append(left, k)
+						}
+						sort.Strings(left)
+						switch {
+						case strings.Contains(r2.ClientFail, "\r\n- "):
+							v = fmt.Sprintf("the second transfer of the session (an upload, stopped with delete) ends with the client's message %q: a sender creates no files, the names are left over from the earlier transfer", clipStr(r2.ClientFail, 120))
+						case !strings.Contains(r2.ClientFail, "Stopped and deleted"):
+							v = fmt.Sprintf("the second stop-and-delete of the session is announced to the server as %q", clipStr(r2.ClientFail, 120))
+						case len(left) > 0:
+							v = fmt.Sprintf("the second stop-and-delete of the session left %v on the server", left)
+						}
+					}
+					r.Outcomes[fmt.Sprintf("first-deleted=%v second-stopped=%v", firstDeleted, r2.StopHit)]++
+				}
+				if v != "" {
+					r.Violate("c10:twice:"+firstWords(v, 9), wp.String()+": "+v, wp)
+					return r
+				}
+			}
+		}
+		return r
+	}
 	if p.AfterContinue {
 		for _, first := range []int{1500, 2500, 3500} {
 			for _, later := range []int{200, 500, 900, 1500, 2500} {
@@ -340,7 +388,7 @@ func init() {
 		ID:    "C10",
 		Level: "model_checking",
 		Rule: "the stop (client keep / client delete / server SIGINT) is delivered atomically just before every scheduler step of the default schedule of a transfer (every moment between two synchronisation or I/O operations of any goroutine on either side), " +
-			"for every scenario = direction x tree (3-chunk file, files, directory as entries, directory as archive) x destination (empty / pre-populated incl. a file -y is replacing) x protocol; an upload over a 300 ms link with Ctrl-C, 3 s in the menu, continue, and a stop 0.2..2.5 s later (the quiet-wait must not grow with the time spent in the menu); thorough: x every single schedule deviation after the stop",
+			"for every scenario = direction x tree (3-chunk file, files, directory as entries, directory as archive) x destination (empty / pre-populated incl. a file -y is replacing) x protocol; an upload over a 300 ms link with Ctrl-C, 3 s in the menu, continue, and a stop 0.2..2.5 s later (the quiet-wait must not grow with the time spent in the menu); one client session with a download and then an upload both ended by stop-and-delete (7 x 3 stop moments); thorough: x every single schedule deviation after the stop",
 		Assumptions: []string{"stop on the client = the exported StopTransferringFiles, and, in the 'keys' jobs, a typed Ctrl-C answered 300 ms later through the product's own menu handler (the menu library itself is a model: rule R14); stop on the server = stopTransferringFiles(false) (the signal handler's body)",
 			"the bound asserted is cleanTimeout of the stopping side (read from its transfer) + 2 s; maxima observed are reported", "completed files = files whose MD5 the receiver acknowledged on the wire before the end"},
 		TraceNote:   "explored directly on the implementation; the number counts executions replayed from recorded choice lists (determinism guard and 5x violation replays)",
@@ -393,6 +441,7 @@ func init() {
 			for _, del := range []bool{false, true} {
 				jobs = append(jobs, vs.MkJob(fmt.Sprintf("stop after continue delete=%v", del), c10Params{W: wParams{Dir: "up", Tree: "one:R:200000", Bufsize: 10240, LatencyMs: 300, Timeout: 5}, Side: "client", Delete: del, AfterContinue: true, NShards: 1}))
 			}
+			jobs = append(jobs, vs.MkJob("stop-and-delete twice in one session", c10Params{W: wParams{Dir: "down", Tree: "small3", Bufsize: 10240, Timeout: 5}, Side: "client", Delete: true, Twice: true, NShards: 1}))
 			if tier == "thorough" {
 				for _, s := range scs[:7] {
 					n := 16
